@@ -6,6 +6,12 @@
 #include "refgf.h"
 #include "cpusim.h"
 
+/* the calls exactly as an application writes them: through the public header (whatever prototype, macro or inline wrapper it provides) */
+#include "raid.h"
+static int hdr_xor_gen(int v, int l, void **a) { return xor_gen(v, l, a); }
+static int hdr_pq_gen(int v, int l, void **a) { return pq_gen(v, l, a); }
+static int hdr_xor_check(int v, int l, void **a) { return xor_check(v, l, a); }
+static int hdr_pq_check(int v, int l, void **a) { return pq_check(v, l, a); }
 typedef int (*fn_raid)(int, int, void **);
 enum { R_XORGEN, R_PQGEN, R_XORCHECK, R_PQCHECK };
 typedef struct { const char *name; fn_raid fn; int kind; const char *isa; int ok; long calls; uint64_t resmask; long corrupt_src, corrupt_p, corrupt_q, refused; } rsym;
@@ -25,6 +31,7 @@ static rsym syms[] = {
 #define X(s, n, isa) { #s, (fn_raid) ksym_##s, R_PQCHECK, isa },
 	V_PQCHECK_LIST(X)
 #undef X
+	{ "xor_gen@raid.h", hdr_xor_gen, R_XORGEN, "disp" }, { "pq_gen@raid.h", hdr_pq_gen, R_PQGEN, "disp" }, { "xor_check@raid.h", hdr_xor_check, R_XORCHECK, "disp" }, { "pq_check@raid.h", hdr_pq_check, R_PQCHECK, "disp" },
 };
 #define NSYMS ((int) (sizeof syms / sizeof syms[0]))
 #define MAXV 258
